@@ -293,6 +293,21 @@ func execExitC18(c *Case, dir string) {
 		if c.Get("cmd") == "variants" { // m.fa holds reference and queries: change only the queries
 			orig := strings.Split(strings.TrimSuffix(s.files[target], "\n"), "\n")
 			copy(lines[:2], orig[:2])
+			if atoi(c.Get("which"))/2%2 == 0 {
+				// the reference comes from the annotation (no --reference): the alignment is a well-formed file whose every
+				// row is one column wider or narrower than the annotated genome
+				lines = lines[2:]
+				var kept []string
+				for i := 0; i < len(args); i++ {
+					if args[i] == "-r" {
+						i++
+						continue
+					}
+					kept = append(kept, args[i])
+				}
+				args = kept
+				c.Tag("reference-from-annotation")
+			}
 		}
 		s.files[target] = strings.Join(lines, "\n") + "\n"
 		c.Set("file", target)
